@@ -1,8 +1,8 @@
-\* C15 quick: the keep-alive timer chain; scripts of up to 2 steps, free and held schedules;
+\* C15 quick: the keep-alive timer chain; scripts of 1 step, free and held schedules;
 \* the code as it is (terminal observations emitted) and repaired (the PROPERTIES)
 CONSTANTS
-  MaxLen = 2
-  MaxTicks = 2
+  MaxLen = 1
+  MaxTicks = 1
   Designs = {"extracted", "repaired"}
   Emit = TRUE
   Holds = {"free", "tick"}
